@@ -17,6 +17,9 @@ type callPlan struct {
 	name string
 	sig  *types.Signature
 	recv bool // args[0] is the receiver
+	// owner is the object holding the func-typed field being called; it is
+	// passed to the field's contract as `self`
+	owner ssa.Value
 }
 
 // packages whose functions are assumed not to touch the heap of the verified
@@ -155,6 +158,7 @@ func (f *Frame) resolve(ci ssa.CallInstruction) callPlan {
 	// carry an (assumed) contract keyed by the variable / field
 	if u, ok := cm.Value.(*ssa.UnOp); ok && u.Op == token.MUL {
 		key := ""
+		var owner ssa.Value
 		switch x := u.X.(type) {
 		case *ssa.Global:
 			if x.Pkg != nil {
@@ -164,11 +168,13 @@ func (f *Frame) resolve(ci ssa.CallInstruction) callPlan {
 			if pt, ok := x.X.Type().Underlying().(*types.Pointer); ok {
 				if st, ok := pt.Elem().Underlying().(*types.Struct); ok {
 					key = "field:" + typeKey(pt.Elem()) + "." + st.Field(x.Field).Name()
+					owner = x.X
 				}
 			}
 		}
 		if fc, ok := c.db.funcs[key]; ok && key != "" {
-			return planFromContract(fc, callPlan{name: key, sig: sig})
+			// for a func-typed field the object holding the field is passed as `self`
+			return planFromContract(fc, callPlan{name: key, sig: sig, owner: owner, recv: owner != nil})
 		}
 	}
 	return callPlan{kind: "havoc", name: "dynamic call", sig: sig}
@@ -326,6 +332,10 @@ func (f *Frame) doCall(ci ssa.CallInstruction, st *State, reach Term) []Term {
 	if cm.IsInvoke() {
 		args = append(args, f.valTyped(cm.Value))
 		argVals = append(argVals, cm.Value)
+	}
+	if p.owner != nil {
+		args = append(args, f.valTyped(p.owner))
+		argVals = append(argVals, p.owner)
 	}
 	for _, a := range cm.Args {
 		args = append(args, f.valTyped(a))
@@ -499,6 +509,8 @@ func (f *Frame) calleeEnv(p callPlan, args []Val, st, old *State) *Env {
 			names = append(names, n)
 			if r := sig.Recv(); r != nil {
 				ptypes = append(ptypes, r.Type())
+			} else if p.owner != nil {
+				ptypes = append(ptypes, p.owner.Type())
 			} else {
 				ptypes = append(ptypes, nil)
 			}
@@ -686,6 +698,8 @@ func (f *Frame) modTargetsShapeErr(p callPlan) ([]modTarget, []string, error) {
 		if p.recv && i == 0 {
 			if r := p.sig.Recv(); r != nil {
 				t = r.Type()
+			} else if p.owner != nil {
+				t = p.owner.Type()
 			}
 		} else if p.recv {
 			t = p.sig.Params().At(i - 1).Type()
